@@ -32,11 +32,12 @@ theorem schemaOKB_sound (l : Layout) (att : HeapOf AttrRow) (ver : Nat) (h : sch
   · exact Or.inr (Or.inr (Or.inl ⟨h1, h2, h3⟩))
   · exact Or.inr (Or.inr (Or.inr ⟨h1, fun a ha => storageOKB_sound a (h2 a ha)⟩))
 
-theorem dumpableB_sound (l : Layout) (d : DbContent) (o : Options) (h : dumpableB l d o = true) : DbDumpable l d o := by
+theorem dumpableB_sound (l : Layout) (d : DbContent) (o : Options) (h : dumpableB l d o = true) :
+    DbDumpable l d o ∧ A02Free d o := by
   simp only [dumpableB, Bool.and_eq_true, all_eq_true, Bool.or_eq_true, Bool.not_eq_true', bne_iff_ne, ne_eq,
-    Option.isNone_iff_eq_none] at h
-  obtain ⟨hs, hr⟩ := h
-  refine ⟨schemaOKB_sound l d.att _ hs, ?_, ?_⟩
+    Option.isNone_iff_eq_none, decide_eq_true_eq] at h
+  obtain ⟨⟨⟨hs, hasc⟩, ha02⟩, hr⟩ := h
+  refine ⟨⟨schemaOKB_sound l d.att _ hs, hasc, ?_, ?_⟩, ha02⟩
   · intro r hrm hsel
     rcases hr r hrm with h | h
     · rw [hsel] at h; cases h
@@ -52,12 +53,16 @@ theorem dumpableB_sound (l : Layout) (d : DbContent) (o : Options) (h : dumpable
       · exact absurd h4 hne
       · exact relReadableB_sound d r h4
 
-/-- **The run-time check is sound**: a cluster and options for which `dumpHypB` says `true` satisfy the `DbDumpable`
-hypothesis of `C01_dump`. -/
+/-- **The run-time check is sound**: a cluster and options for which `dumpHypB` says `true` satisfy the hypotheses of
+`C01_dump`: outside the classes of the open findings (`TemplatesByName`, `Cluster.Plain`, `A02Free`) and `DbDumpable`. -/
 theorem dumpHypB_sound (c : Cluster) (o : Options) (h : dumpHypB c o = true) :
-    ∀ db ∈ c.dbs.live, selectedDb o db = true → ∀ d, c.content.lookup db.oid = some d → DbDumpable c.layout d o := by
+    TemplatesByName c ∧ c.Plain ∧
+    ∀ db ∈ c.dbs.live, selectedDb o db = true → ∀ d, c.content.lookup db.oid = some d → DbDumpable c.layout d o ∧ A02Free d o := by
+  simp only [dumpHypB, Bool.and_eq_true, decide_eq_true_eq] at h
+  obtain ⟨⟨htpl, hplain⟩, h⟩ := h
+  refine ⟨htpl, hplain, ?_⟩
   intro db hdb hsel d hd
-  simp only [dumpHypB, all_eq_true, Bool.or_eq_true, Bool.not_eq_true'] at h
+  simp only [all_eq_true, Bool.or_eq_true, Bool.not_eq_true'] at h
   rcases h db hdb with h | h
   · rw [hsel] at h; cases h
   · rw [hd] at h
